@@ -156,53 +156,117 @@ func c12SameBytes(r *an.Run, m *runModel) {
 
 func c12Descriptions(r *an.Run, m *runModel) {
 	r.Rule("R3-descriptions-to-stderr-only")
-	pc := fn(r, mainP, "mainCmd.printComments")
 	preview := fn(r, mainP, "mainCmd.preview")
-	if pc == nil || preview == nil {
+	if preview == nil || m.comments == nil {
 		return
 	}
-	for _, c := range an.Calls(pc) {
-		if an.IsCallTo(c, "builtin:len") {
-			continue
-		}
-		good := an.IsCallTo(c, "fmt.Fprintf") && an.Path(c.Common().Args[0]) == "cmd.Stderr"
-		r.Check(good, short(pc)+"|"+an.CalleeName(c), c.Pos(), "printComments only prints with fmt.Fprintf to cmd.Stderr (got %s to %q)", an.CalleeName(c), an.Path(c.Common().Args[0]))
+	// where the descriptions go: follow the value (and its elements) forward, into module functions it is
+	// handed to; every place that finally consumes it must be a formatted write to cmd.Stderr
+	type use struct {
+		in  ssa.Instruction
+		via ssa.Value
 	}
-	// the comments value flows only into printComments / preview
-	if m.comments != nil {
-		if refs := m.comments.Referrers(); refs != nil {
-			for _, u := range *refs {
-				switch x := u.(type) {
-				case *ssa.DebugRef:
-				case ssa.CallInstruction:
-					sc := an.StaticCallee(x)
-					r.Check(sc == pc || sc == preview, short(m.run)+"|comments-use|"+an.CalleeName(x), x.Pos(), "descriptions are handed only to printComments / preview")
-				default:
-					r.Fail(short(m.run)+"|comments-use", u.Pos(), "descriptions flow into %s", u.String())
-				}
-			}
-		}
+	var terminal []use
+	var printers []ssa.CallInstruction // the calls in Run (or the module calls in Run that lead to them) that print descriptions
+	type vt struct {
+		v   ssa.Value
+		top ssa.CallInstruction
 	}
-	// comments inside preview go to printComments only
-	cp := paramAt(preview, 3)
-	if refs := cp.Referrers(); refs != nil {
+	seen := map[vt]bool{}
+	var follow func(v ssa.Value, top ssa.CallInstruction)
+	follow = func(v ssa.Value, top ssa.CallInstruction) {
+		if v == nil || seen[vt{v, top}] {
+			return
+		}
+		seen[vt{v, top}] = true
+		refs := v.Referrers()
+		if refs == nil {
+			return
+		}
 		for _, u := range *refs {
-			if c, ok := u.(ssa.CallInstruction); ok {
-				r.Check(an.StaticCallee(c) == pc, short(preview)+"|comments-use", c.Pos(), "preview hands the descriptions only to printComments")
-			} else if _, isDbg := u.(*ssa.DebugRef); !isDbg {
-				r.Fail(short(preview)+"|comments-use", u.Pos(), "descriptions flow into %s", u.String())
+			switch x := u.(type) {
+			case *ssa.DebugRef:
+			case *ssa.Phi, *ssa.MakeInterface, *ssa.ChangeType, *ssa.Convert, *ssa.Slice:
+				follow(x.(ssa.Value), top)
+			case *ssa.IndexAddr:
+				follow(x, top)
+			case *ssa.Index:
+				follow(x, top)
+			case *ssa.UnOp:
+				follow(x, top)
+			case *ssa.Range, *ssa.Next:
+				follow(x.(ssa.Value), top)
+			case *ssa.Extract:
+				follow(x, top)
+			case *ssa.Store:
+				if x.Val != v {
+					continue
+				}
+				if ia, ok := x.Addr.(*ssa.IndexAddr); ok {
+					if al, ok := ia.X.(*ssa.Alloc); ok {
+						for _, w := range *al.Referrers() {
+							if sl, ok := w.(*ssa.Slice); ok {
+								follow(sl, top)
+							}
+						}
+						continue
+					}
+				}
+				terminal = append(terminal, use{x, v})
+			case ssa.CallInstruction:
+				if an.IsCallTo(x, "builtin:len") {
+					continue
+				}
+				t := top
+				if t == nil && x.Parent() == m.run {
+					t = x
+				}
+				if h := an.StaticCallee(x); h != nil && an.InModule(h) && h.Blocks != nil {
+					for i, a := range x.Common().Args {
+						if a == v && i < len(h.Params) {
+							follow(h.Params[i], t)
+						}
+					}
+					continue
+				}
+				terminal = append(terminal, use{x, v})
+				if t != nil {
+					printers = append(printers, t)
+				}
+			default:
+				terminal = append(terminal, use{u, v})
 			}
 		}
 	}
+	follow(m.comments, nil)
+	nPrint := 0
+	for _, t := range terminal {
+		c, isCall := t.in.(ssa.CallInstruction)
+		good := false
+		what := t.in.String()
+		if isCall {
+			what = an.CalleeName(c)
+			if an.IsCallTo(c, "fmt.Fprintf", "fmt.Fprintln", "fmt.Fprint") {
+				w := an.PathIn(c.Common().Args[0], m.run)
+				good = w == "cmd.Stderr"
+				what += " to " + w
+				nPrint++
+			}
+		}
+		r.Check(good, short(t.in.Parent())+"|description-sink|"+what, t.in.Pos(), "descriptions are only ever formatted to cmd.Stderr (found: %s)", what)
+	}
+	r.Count("description print sites", nPrint)
+	r.Min("description print sites", 1)
 	// call sites: only on the matched path, only in the diff / print arms
 	unmatched := m.hyp(nil, map[ssa.Value]bool{m.matched: false})
 	neither := m.hyp(map[string]bool{"Diff": false, "Print": false}, nil)
 	n := 0
-	for _, c := range an.Calls(m.run) {
-		sc := an.StaticCallee(c)
-		if sc != pc && sc != preview {
+	done := map[ssa.CallInstruction]bool{}
+	for _, c := range printers {
+		if done[c] {
 			continue
 		}
+		done[c] = true
 		n++
 		onMatched := m.unreachableUnder(c.Block(), unmatched)
 		r.Check(onMatched, short(m.run)+"|described-only-when-applied|"+an.TrimModule(an.CalleeName(c)), c.Pos(), "descriptions are printed only for files to which a change applied")
@@ -234,8 +298,19 @@ func fingerprintDepth(f *ssa.Function, depth int) []string {
 	}
 	var out []string
 	for _, g := range group {
+		// the test that governs a loop (i < n, i >= 0, the ok of a range) is loop form, not content
+		loopTest := map[ssa.Value]bool{}
+		for _, l := range an.Loops(g) {
+			if iff, ok := l.Header.Instrs[len(l.Header.Instrs)-1].(*ssa.If); ok {
+				c, _ := an.StripNot(iff.Cond)
+				loopTest[c] = true
+			}
+		}
 		for _, b := range g.Blocks {
 			for _, instr := range b.Instrs {
+				if v, ok := instr.(ssa.Value); ok && loopTest[v] {
+					continue
+				}
 				switch x := instr.(type) {
 				case ssa.CallInstruction:
 					if sc := an.StaticCallee(x); sc != nil && in[sc] {
@@ -243,6 +318,20 @@ func fingerprintDepth(f *ssa.Function, depth int) []string {
 					}
 					name := an.CalleeName(x)
 					if name == "builtin:len" || name == "builtin:append" || name == "builtin:cap" || strings.HasPrefix(name, "closure:") {
+						continue
+					}
+					if strings.HasPrefix(name, "sort.") || strings.HasPrefix(name, "slices.Sort") {
+						// how a sequence is brought into order (sort.Ints + reverse loop, sort.Sort(sort.Reverse(..)))
+						// is an implementation detail: one entry however often and through whichever entry point
+						sortSeen := false
+						for _, o := range out {
+							if o == "call sort" {
+								sortSeen = true
+							}
+						}
+						if !sortSeen {
+							out = append(out, "call sort")
+						}
 						continue
 					}
 					out = append(out, "call "+name)
@@ -350,10 +439,14 @@ func c12Siblings(r *an.Run, m *runModel) {
 			fnodes = append(fnodes, an.CallsTo(g, formatNode)...)
 			procs = append(procs, an.CallsTo(g, importsProcess)...)
 		}
-		good := len(fnodes) == 1 && len(procs) == 1 && fnodes[0].Parent() == procs[0].Parent() && fnodes[0].Block().Dominates(procs[0].Block())
+		good := len(fnodes) == 1 && len(procs) == 1
+		if good {
+			a, b := siteIn(f, fnodes[0]), siteIn(f, procs[0])
+			good = a != nil && b != nil && an.InstrDominates(a, b)
+		}
 		if good {
 			// the bytes processed are the printer's buffer
-			good = derivesFrom(procs[0].Common().Args[1], an.Unwrap(fnodes[0].Common().Args[0]))
+			good = derivesFromAcross(procs[0].Common().Args[1], an.Unwrap(fnodes[0].Common().Args[0]))
 		}
 		r.Check(good, short(f)+"|format-then-process", f.Pos(), "%s prints with format.Node and hands exactly that buffer to imports.Process", short(f))
 	}
